@@ -239,7 +239,9 @@ func c13History(r *vk.Run, rng *rand.Rand, h, steps int, root string) {
 		// per-edit guarantees (ext4 hands a just-freed inode number straight
 		// back), so such a file gets its mtime bumped here.
 		for p, d := range fileDigests(root, before) {
-			if was, ok := atScan[p]; ok && was == before[p] && shaAtScan[p] != d {
+			now := before[p]
+			// permission bits are not part of what the digest cache is keyed on
+			if was, ok := atScan[p]; ok && was.kind == now.kind && was.ino == now.ino && was.size == now.size && was.mtime == now.mtime && shaAtScan[p] != d {
 				fsx.BumpMtime(fullPath(root, p))
 				changed[p] = true
 				r.Count("precondition_repaired_by_mtime_bump", 1)
